@@ -61,23 +61,23 @@ Definition idx_sort (l : list row) : list row := fold_right idx_insert [] l.
 
 (* the declarative window [h, h+c-1] (exact integers) *)
 Definition in_window (h c : Z) (r : row) : bool := (h <=? height r) && (height r <=? h + c - 1).
-(* the code: strconv.Atoi yields a Go int (64 bit) or an error (handled by the handler model in the driver:
-   height out of range -> 400, count out of range -> 1); GetHeadersByHeight computes height + count - 1 in Go int
-   arithmetic, which WRAPS modulo 2^64; the two bounds reach "WHERE height BETWEEN ? AND ?" as int64. *)
+(* the code (since the fix 76f1492 of /repo = proposed-fixes/C04-2.diff): strconv.Atoi yields a Go int (64 bit) or an error
+   (handled by the handler model in the driver: height out of range -> 400, count out of range -> 1);
+   GetHeadersByHeight: a count <= 0 is the empty window; the end height + (count - 1) saturates to math.MaxInt when the
+   sum does not fit a 64-bit int (the window is open-ended); the two bounds reach "WHERE height BETWEEN ? AND ?" as int64. *)
 Definition two63 : Z := 9223372036854775808.
-Definition wrap64 (z : Z) : Z := (z + two63) mod (2 * two63) - two63.
-Definition window_end (h c : Z) : Z := wrap64 (h + c - 1).
 Definition in_range (lo hi : Z) (r : row) : bool := (lo <=? height r) && (height r <=? hi).
+Definition window_end (h c : Z) : Z := Z.min (h + c - 1) (two63 - 1).
 Definition by_height_range (s : store) (h : Z) (count : option Z) : list row :=
   let c := match count with Some c => c | None => 1 end in
-  idx_sort (filter (in_range h (window_end h c)) (rev s)).
+  if c <=? 0 then [] else idx_sort (filter (in_range h (window_end h c)) (rev s)).
 
-(* the proposed repair (build/proposed-fixes/C04-2.diff): a count <= 0 is the empty window, and an end that does not fit
-   a 64-bit int saturates (the window is open-ended) *)
-Definition window_end_fixed (h c : Z) : Z := Z.min (h + c - 1) (two63 - 1).
-Definition by_height_range_fixed (s : store) (h : Z) (count : option Z) : list row :=
+(* history: before 76f1492 the end was computed as height + count - 1 in Go int arithmetic, which WRAPS modulo 2^64 *)
+Definition wrap64 (z : Z) : Z := (z + two63) mod (2 * two63) - two63.
+Definition window_end_before_fix (h c : Z) : Z := wrap64 (h + c - 1).
+Definition by_height_range_before_fix (s : store) (h : Z) (count : option Z) : list row :=
   let c := match count with Some c => c | None => 1 end in
-  if c <=? 0 then [] else idx_sort (filter (in_range h (window_end_fixed h c)) (rev s)).
+  idx_sort (filter (in_range h (window_end_before_fix h c)) (rev s)).
 
 (* ------------------------------------------------------------------ tips *)
 (* sqlSelectTips: mainTip = the LONGEST_CHAIN row of maximal height (ORDER BY height DESC LIMIT 1)
